@@ -36,7 +36,7 @@ func runApiCalls(o *opts, inDomain bool) (*summary, error) {
 	g := &G{r: rng, inDomain: inDomain}
 	thorough := o.tier == "thorough"
 
-	w.only = parseOnly(o.extra)
+	w.only = parseOnly(o.extraArg("only"))
 
 	pick := func(serial uint32) uint32 {
 		// half of the calls go to the configured controllers of the client
